@@ -6,7 +6,7 @@ import ArroyProofs.Properties.C04Build
 import ArroyProofs.Properties.C10Reach
 /-! The history-level theorems with the id-generator hypothesis `FreshSupply` discharged by C13
 (`freshSupply`): these are the unconditional statements over ALL histories
-`((add | append | overwrite | delete | clear)* build)+` on any indexes, all oracle streams
+`((add | append | overwrite | delete | clear | prepare_changing_distance)* build)+` on any indexes, all oracle streams
 (normals, random sides, batch lengths), all options, all cancellation schedules. -/
 namespace Arroy
 
